@@ -103,10 +103,15 @@ def commit_then_raise(model: Model, fn: FuncInfo, cls: Optional[ClassInfo] = Non
             return True
         return False
 
+    stored_attrs: Dict[str, Set[str]] = {}
+
     class It(FlagInterp):
         def on_stmt(self, s, st):
             if store_stmt(s):
-                st = self.add(st, ['stored@%s' % norm(s)[:60]])
+                key = norm(s)[:60]
+                stored_attrs[key] = {n.attr for n in ast.walk(s) if isinstance(n, ast.Attribute) and isinstance(n.ctx, ast.Store)
+                                     and isinstance(n.value, ast.Name) and n.value.id == sn}
+                st = self.add(st, ['stored@%s' % key])
             return st
 
         def on_call(self, c, st):
@@ -115,11 +120,46 @@ def commit_then_raise(model: Model, fn: FuncInfo, cls: Optional[ClassInfo] = Non
             return st
     it = It(fn, ExcHierarchy(model))
     it.run(FlagInterp.start())
+    # transactional form: `snapshot = (self.a, self.b); self.a = ..; self.b = ..; try: <checks that raise> except BaseException:
+    # (self.a, self.b) = snapshot; raise` - a raise inside such a try leaves the object as it was
+    rolled_back: Dict[int, Set[str]] = {}
+    snapshots: Dict[str, Tuple[int, List[str]]] = {}
+    for n in walk_no_nested(fn.node):
+        if isinstance(n, ast.Assign) and len(n.targets) == 1 and isinstance(n.targets[0], ast.Name):
+            elts = n.value.elts if isinstance(n.value, (ast.Tuple, ast.List)) else [n.value]
+            attrs = [is_self_attr(e, sn) for e in elts]
+            if attrs and all(attrs):
+                snapshots[n.targets[0].id] = (n.lineno, attrs)
+    for t in walk_no_nested(fn.node):
+        if not isinstance(t, ast.Try):
+            continue
+        for h in t.handlers:
+            catches_all = h.type is None or norm(h.type).split('.')[-1] in ('BaseException', 'Exception')
+            if not catches_all or not h.body or not (isinstance(h.body[-1], ast.Raise) and h.body[-1].exc is None):
+                continue
+            restored: Set[str] = set()
+            for b in h.body[:-1]:
+                if isinstance(b, ast.Assign) and len(b.targets) == 1 and isinstance(b.value, ast.Name) and b.value.id in snapshots:
+                    tg = b.targets[0].elts if isinstance(b.targets[0], (ast.Tuple, ast.List)) else [b.targets[0]]
+                    names = [is_self_attr(x, sn) for x in tg]
+                    if names == snapshots[b.value.id][1] and snapshots[b.value.id][0] < t.lineno:
+                        restored |= set(names)
+                else:
+                    restored = set()
+                    break
+            if restored:
+                for x in t.body:
+                    for r in ast.walk(x):
+                        if isinstance(r, ast.Raise):
+                            rolled_back[id(r)] = restored
     out = []
     for s, st in it.raises:
         if id(s) in in_handler:
             continue
-        stores = sorted({f.split('@', 1)[1] for el in st for f in el if f.startswith('stored@')})
+        keys = {f.split('@', 1)[1] for el in st for f in el if f.startswith('stored@')}
+        if id(s) in rolled_back:
+            keys = {k for k in keys if not (stored_attrs.get(k) and stored_attrs[k] <= rolled_back[id(s)])}
+        stores = sorted(keys)
         if stores:
             out.append((s, stores))
     return out
